@@ -69,7 +69,7 @@ ASSUMPTIONS = [
     "construction errors (both / neither buffer mode, reset=None, missing methods) are outside: only "
     "valid configurations are enumerated",
 ]
-NONTRIVIAL_FLOOR = {"quick": 3000, "thorough": 100000}
+NONTRIVIAL_FLOOR = {"quick": 100000, "thorough": 1000000}
 BUDGET_S = {"quick": 240, "thorough": 1500}
 
 
@@ -89,7 +89,7 @@ def run_limit(length):
 def _dom(tier):
     if tier == "thorough":
         return dict(N=6, L=14, Lform=11, run_blocks=4, split_len=4)
-    return dict(N=3, L=8, Lform=6, run_blocks=2, split_len=2)
+    return dict(N=5, L=12, Lform=9, run_blocks=3, split_len=3)
 
 
 def describe(tier):
@@ -680,13 +680,13 @@ def replay(case):
 
 
 LEVEL_TEXT = ("explicit-state exploration of the real FillRequest fill/request machine: every F/R history "
-              "up to length 8 (thorough: 12) for every (element kind, bufsize 1..3 / 1..5, buffer mode, "
+              "up to length 12 (thorough: 14) for every (element kind, bufsize 1..5 / 1..6, buffer mode, "
               "reset, yield_on_remainder) is executed on a freshly built object and compared step by step "
               "with a block reference model that drives a twin of the wrapped element; plus exhaustive "
               "enumeration of run() over all flow lengths, of Split(bufsize=B) around a FillRequest "
               "branch for B in 1..2n+1, 1000, None, and of FillRequestSeq.run for outer bufsizes "
               "1..2n+1; a sys.settrace step watchdog turns non-termination into an observation")
-LEVEL_NOTE = ("bounded: histories up to the stated length, bufsize up to 5, ten element kinds; request() "
+LEVEL_NOTE = ("bounded: histories up to the stated length, bufsize up to 5 (thorough 6), ten element kinds; request() "
               "always consumed completely; for yield_on_remainder=True under fill/request only termination "
               "and value accounting are judged (the statement fixes exact results for "
               "yield_on_remainder off only)")
